@@ -13,7 +13,7 @@ import (
 
 // Std::Sync::DiagnosticList
 func initSyncDiagnosticList() {
-	c := &value.DiagnosticListClass.MethodContainer
+	c := &value.SyncDiagnosticListClass.MethodContainer
 
 	vm.Def(
 		c,
